@@ -28,7 +28,8 @@ def scenarios(tier):
     sc = []
     # names: 'a' = x.y, 'b' = w.x.y (subdomain of a), 'c' = x.y again (equal to a), 'd' = z (unrelated), 'r' = root
     base_names = {'a': ('L1', 'L2'), 'b': ('L0', 'L1', 'L2'), 'c': ('L1', 'L2'), 'd': ('L3',), 'r': (),
-                  'm': ('B63a', 'B63b', 'B63c', 'B61'), 'n': ('L0', 'B63b', 'B63c', 'B61'), 'e': ('L2',)}
+                  'm': ('B63a', 'B63b', 'B63c', 'B61'), 'n': ('L0', 'B63b', 'B63c', 'B61'), 'e': ('L2',),
+                  'f': ('L1b', 'L2')}      # same shape as 'a' with an independent first label (equal, different, or equal up to letter case)
     sc.append(('empty', dict(q=[], an=[], ns=[], ar=[], opt=None)))
     sc.append(('q1', dict(q=['a'], an=[], ns=[], ar=[], opt=None)))
     sc.append(('q2_shared', dict(q=['a', 'b'], an=[], ns=[], ar=[], opt=None)))
@@ -46,6 +47,7 @@ def scenarios(tier):
     # 'a' = L1.L2 must be ONE pointer to it) resp. at 16384 (one too far: 'a' must be written in full)
     sc.append(('edge16383', dict(q=[], an=[('NULL@16358', 'r', []), ('NS', 'b', ['e']), ('NS', 'a', ['e'])], ns=[], ar=[], opt=None)))
     sc.append(('edge16384', dict(q=[], an=[('NULL@16359', 'r', []), ('NS', 'b', ['e']), ('NS', 'a', ['e'])], ns=[], ar=[], opt=None)))
+    sc.append(('twin', dict(q=['a'], an=[('NS', 'f', ['a']), ('PTR', 'a', ['f'])], ns=[], ar=[], opt=None)))
     sc.append(('soa_minfo', dict(q=[], an=[('SOA', 'a', ['b', 'c'])], ns=[('MINFO', 'd', ['a', 'b'])], ar=[], opt=None)))
     if True:      # cheap enough for the quick tier as well
         sc.append(('rp_afsdb_rt', dict(q=['b'], an=[('RP', 'a', ['b', 'c']), ('AFSDB', 'b', ['a'])], ns=[('RouteThrough', 'c', ['b'])], ar=[], opt=None)))
@@ -80,7 +82,7 @@ class Builder:
         g = self.g
         # shared label byte symbols: label id -> list of byte symbols (1 or 2 bytes each)
         self.lab = {}
-        self.lab_len = {'L0': 1, 'L1': 2, 'L2': 1, 'L3': 2, 'B63a': 63, 'B63b': 63, 'B63c': 63, 'B61': 61}
+        self.lab_len = {'L0': 1, 'L1': 2, 'L1b': 2, 'L2': 1, 'L3': 2, 'B63a': 63, 'B63b': 63, 'B63c': 63, 'B61': 61}
         self.entries = []       # for the walker: ('q'|'rr', ...)
         self.rust_q, self.rust_rr = [], {'an': [], 'ns': [], 'ar': []}
         self.cur_section = 'an'
